@@ -22,7 +22,8 @@ class Prop(BaseProp):
 
     def eval_case(self, drv, case):
         tree = case['tree']
-        e = impl.build_tree(tree)
+        import random as _random
+        e = impl.build_tree(tree, rng=_random.Random(len(repr(tree))) if len(repr(tree)) % 3 == 0 else None)
         try:
             r = e.simplify()
         except BaseException as ex:  # noqa
